@@ -12,7 +12,8 @@ CHECKS = {
             'Structural obligations decided on every CFG path of scan_border<V>, scan<V>, get<V>, iscan_findnext/'
             'findfirst, insert_lv and border_split: every non-retry exit of a visited border has recorded it; a get '
             'miss reports the validated version; the cursor invokes the callback before leaving a border; an insert '
-            'dirties the border before touching it. Necessary conditions of C05, not a proof that the recorded set '
+            'dirties the border before touching it; roll-backs never cut the node set below what enclosing levels '
+            'recorded (R-RBK, shared). Necessary conditions of C05, not a proof that the recorded set '
             'suffices for every tree shape.',
             'clang 14 AST/CFG of the instantiated templates; rule code in checks/C05*.py; sufficiency of one border '
             'per visit and counter wrap are not decided',
@@ -59,7 +60,8 @@ CHECKS = {
  'C04': ('range-reader typestate (loads / version checks / pushes / roll-backs) over the CFG with lambda inlining',
          'Decides for scan_border<V> and the layer scan, on every CFG path: only data covered by a later '
          'scan_check_retry established OK is pushed or followed (R-VAR), one permutation snapshot and validated exits '
-         '(R-SNAP), roll-back before every retry (R-RBK), remove-visible validation of pushed values (R-RV). Not a '
+         '(R-SNAP, including node accessors that read part of the live word), roll-back before every retry, each '
+         'container restored to the size recorded for it (R-RBK), remove-visible validation of pushed values (R-RV). Not a '
          'proof of per-key consistency over all interleavings.',
          'clang 14 AST/CFG; scan_check_retry semantics decided under C06 R-EQ',
          'DESIGN.md section 5, C04'),
@@ -98,15 +100,17 @@ CHECKS = {
  'C07': ('who-may-free table over resolved release sites, unpublished-object typestate, retire/tag rules, guard '
          'dominance and affine slack of the GC epoch, non-zero fold rule, gated epoch advance',
          'Decides that every release site belongs to the frozen who-may-free table and speculative deletes act on '
-         'unpublished objects (R-WMF); unlink implies retire with the session\'s own begin epoch (R-RET); the GC frees '
+         'unpublished objects, and whoever overwrites a looked-up entry takes the displaced value and retires it '
+         '(R-WMF); unlink implies retire with the session\'s own begin epoch (R-RET); the GC frees '
          'only entries below the GC epoch with at least two epochs of slack (R-GCG); only non-zero begin epochs enter '
          'the minimum (R-MIN); the epoch advances only after all sessions caught up (R-ADV); enter publishes / leave '
-         'clears the begin epoch (R-PUB). Absence of use-after-free over all interleavings is not decided.',
+         'clears the begin epoch (R-PUB), the published epoch is re-validated after its publication (R-FRESH) and leave '
+         'clears it before releasing the slot (R-LVE). Absence of use-after-free over all interleavings is not decided.',
          'clang 14 AST/CFG; begin epoch 0 means not in a session; the non-atomic table scan is undecided',
          'DESIGN.md section 5, C07'),
  'C11': ('allocation-ownership typestate with computed consumption summaries (E-OWN); drain / teardown agreement rules',
          'Decides on every CFG path that each allocation is transferred, retired, returned or freed exactly once '
-         '(R-OWN), that a displaced value is retired (R-SWAP), that fin drains every container the GC fills and every '
+         '(R-OWN), that a displaced value is retired (R-SWAP) and never dropped by set_value (R-DISP), that fin drains every container the GC fills and every '
          'session (R-DRAIN), and that recursive teardown covers every link with an exactly-once hand-over to the GC '
          '(R-DESTROY), and that a tree root pointer is nulled only when the loaded root is null or destroyed on that '
          'path (R-ROOT). Allocator balance over histories is not decided.',
@@ -129,7 +133,8 @@ CHECKS = {
  'C14': ('CAS-protocol typestate, claim/token pairing, ordering rule, compile-time capacity witnesses',
          'Decides the shape of the slot claim (CAS from false to true, R-CAS), that a token is handed out only for the '
          'slot whose claim succeeded and WARN_MAX_SESSIONS only after the whole table was tried (R-TOK), publication '
-         'of the begin epoch before enter returns (R-PUB), the store order of leave (R-LVE) and the table capacity '
+         'of the begin epoch before enter returns (R-PUB) and its re-validation after publication (R-FRESH), the store '
+         'order of leave (R-LVE) and the table capacity '
          'for several configured capacities (R-CAP). Mutual exclusion over interleavings rests on CAS atomicity.',
          'clang 14 AST/CFG and constant evaluator; atomicity of std::atomic<bool>::compare_exchange',
          'DESIGN.md section 5, C14'),
@@ -153,7 +158,8 @@ CHECKS = {
          'shift amounts, call-site agreement',
          'Decides single atomic publication per mutator path (R-PUB1), that no shift amount reaches 64 for any abstract '
          '(rank, count) admitted by the preconditions (R-SHIFT, exhaustive over the finite abstraction), free-slot '
-         'discipline (R-SLOT) and the word layout (R-LAYP). The bit-precise correctness of the shift arithmetic is '
+         'discipline (R-SLOT), the word layout (R-LAYP) and, reader side, that lock-free readers consume the word through '
+         'one local snapshot (R-RD1). The bit-precise correctness of the shift arithmetic is '
          'not decided.',
          'clang 14 AST/CFG; caller preconditions rank <= count <= 15 assumed',
          'DESIGN.md section 5, C19'),
